@@ -685,3 +685,21 @@ Lemma ex_run :
   | _ => False
   end.
 Proof. vm_compute. reflexivity. Qed.
+
+(* ================================================================ the requests *)
+
+Lemma ll_request_thm ts s : addr_ok ts -> ll_rep s -> ll_done s = false ->
+  ll_transmit ts s =
+  Ok (s, Some (mkTx (ll_request ts (ll_cursor s)) (frame_spec (ll_request ts (ll_cursor s)) []) (Some (ll_cursor s)))).
+Proof.
+  intros Hts [Hc _] D. unfold ll_transmit. rewrite D.
+  rewrite (send_request_ok _ (ll_request_wf ts (ll_cursor s) Hts Hc)). reflexivity.
+Qed.
+
+Lemma sc_request_thm ts s : addr_ok ts -> sc_rep s -> sc_done s = false ->
+  sc_transmit ts s =
+  Ok (s, Some (mkTx (sc_request ts (sc_cursor s)) (frame_spec (sc_request ts (sc_cursor s)) []) (Some (sc_cursor s)))).
+Proof.
+  intros Hts [Hc _] D. unfold sc_transmit. rewrite D.
+  rewrite (send_request_ok _ (sc_request_wf ts (sc_cursor s) Hts Hc)). reflexivity.
+Qed.
